@@ -134,35 +134,57 @@ theorem run_native (i : Input) (h : nativeCheck i = true) :
 theorem run_eq_spec (i : Input) (h : nativeCheck i = true) : (run i).pass = spec i := by
   simp only [run_native i h, verifyIdentities_eq leafIndex_zero, spec_eq_specOf]
 
-/-- **plugins**: a signature that names no plugin, or a plugin that does not declare the
-trusted-identity capability (e.g. revocation only), leaves the identity check native: the
-plugin and its answers do not matter. -/
-theorem plugin_without_identity_capability_does_not_matter (i : Input)
-    (h : ∀ p, i.plugin = some p → Capability.trustedIdentity ∉ p.capabilities) :
+/-- **plugins**: a signature that names no plugin, or a plugin whose exactly spelled capabilities
+do not include the trusted-identity one (e.g. revocation only), leaves the identity check native:
+the plugin and its answers do not matter. -/
+theorem plugin_without_identity_capability_does_not_matter (i : Input) (h : nativeCheck i = true) :
+    (run i).pass = verifyIdentities i.identities i.chain := run_native i h
+
+/-- a capability counts only in its exact spelling: declaring other strings (another letter case,
+white space) next to the revocation capability does not take the identity check away -/
+theorem only_exact_spelling_counts (i : Input) (p : Plugin) (h : i.plugin = some p)
+    (hr : capRevocationCheck ∈ p.capabilities) (ht : capTrustedIdentity ∉ p.capabilities) :
     (run i).pass = verifyIdentities i.identities i.chain := by
   apply run_native
-  unfold nativeCheck
-  cases hp : i.plugin with
-  | none => rfl
-  | some p =>
-    have := h p hp
-    simpa using this
+  have h1 : capRevocationCheck ∈ pluginCaps p := by
+    simp [pluginCaps, hr]
+  have h2 : capTrustedIdentity ∉ pluginCaps p := by
+    intro hm
+    exact ht (List.mem_filter.1 hm).1
+  have h3 : (pluginCaps p).isEmpty = false := by
+    cases hc : pluginCaps p with
+    | nil => rw [hc] at h1; simp at h1
+    | cons a r => rfl
+  simp [nativeCheck, h, h3, h2]
 
 theorem revocation_only_plugin_is_native (i : Input) (b : Bool)
-    (h : i.plugin = some { capabilities := [.revocationCheck], identitySuccess := b }) :
+    (h : i.plugin = some { capabilities := [capRevocationCheck], identitySuccess := b }) :
     (run i).pass = verifyIdentities i.identities i.chain := by
-  apply plugin_without_identity_capability_does_not_matter
-  intro p hp
-  rw [h] at hp
-  simp only [Option.some.injEq] at hp
-  rw [← hp]
-  simp
+  apply only_exact_spelling_counts i _ h
+  · simp
+  · show capTrustedIdentity ∉ [capRevocationCheck]
+    decide
 
-/-- ... and a plugin that declares it decides -/
+/-- ... and a plugin that declares it (exactly) decides -/
 theorem plugin_with_identity_capability_decides (i : Input) (p : Plugin) (h : i.plugin = some p)
-    (hc : Capability.trustedIdentity ∈ p.capabilities) : (run i).pass = p.identitySuccess := by
-  have : nativeCheck i = false := by simp [nativeCheck, h, hc]
-  simp [run, this, pluginVerdict, h]
+    (hc : capTrustedIdentity ∈ p.capabilities) : (run i).pass = p.identitySuccess := by
+  have h1 : capTrustedIdentity ∈ pluginCaps p := by simp [pluginCaps, hc]
+  have h3 : (pluginCaps p).isEmpty = false := by
+    cases hc' : pluginCaps p with
+    | nil => rw [hc'] at h1; simp at h1
+    | cons a r => rfl
+  have : nativeCheck i = false := by simp [nativeCheck, h, h1]
+  simp [run, this, pluginVerdict, h, h3]
+
+/-- a plugin none of whose declared capabilities is spelled exactly is refused -/
+theorem plugin_without_capability_is_refused (i : Input) (h : refused i = true) : (run i).pass = false := by
+  unfold refused at h
+  cases hp : i.plugin with
+  | none => rw [hp] at h; cases h
+  | some p =>
+    rw [hp] at h
+    simp only at h
+    simp [run, nativeCheck, pluginVerdict, hp, h]
 
 theorem mem_all_contains {l attrs : List Attr} :
     l.all (fun a => attrs.contains a) = true ↔ ∀ a ∈ l, a ∈ attrs := by
@@ -558,9 +580,24 @@ theorem model_holds_minted (i : Input) (hn : nativeCheck i = true) (hwf : wf i =
 theorem model_holds_plugin (i : Input) : (pluginClauses i (run i)).holds = true := by
   unfold pluginClauses
   simp only [Clauses.holds_cons, Clauses.holds_nil, Bool.and_true]
-  cases hn : nativeCheck i with
-  | true => rfl
-  | false => simp [run, hn]
+  cases hr : refused i with
+  | true =>
+    have hp := plugin_without_capability_is_refused i hr
+    have hn : nativeCheck i = false := by
+      unfold refused at hr; unfold nativeCheck
+      cases h : i.plugin with
+      | none => rw [h] at hr; cases hr
+      | some p => rw [h] at hr; simp only at hr; simp [hr]
+    have hv : pluginVerdict i = false := by
+      unfold refused at hr; unfold pluginVerdict
+      cases h : i.plugin with
+      | none => rw [h] at hr; cases hr
+      | some p => rw [h] at hr; simp only at hr; simp [hr]
+    simp [hp, hn, hv]
+  | false =>
+    cases hn : nativeCheck i with
+    | true => rfl
+    | false => simp [run, hn]
 
 /-- **C04, the whole property**: every clause of `Holds` is true of the model's behaviour, for
 all identity lists, chains and plugins, under the (decidable, per-case checked) assumption `wf`
@@ -628,12 +665,18 @@ example : Holds { identities := [exId ['a'] [[(C, us)], [(ST, wa)], [(O, org)]]]
     { pass := true } = true := by decide
 example : wf { identities := [], chain := exChain, minted := minted, plugin := none } = true := by decide
 -- a revocation-only plugin changes nothing: the root's subject still does not pass ...
-example : run { identities := [exId ['a'] [[(CN, rootCN)], [(O, org)], [(ST, wa)], [(C, us)]]], chain := exChain, minted := minted, plugin := some { capabilities := [.revocationCheck], identitySuccess := true } } = { pass := false } := by decide
+example : run { identities := [exId ['a'] [[(CN, rootCN)], [(O, org)], [(ST, wa)], [(C, us)]]], chain := exChain, minted := minted, plugin := some { capabilities := [capRevocationCheck], identitySuccess := true } } = { pass := false } := by decide
 -- ... and `Holds` rejects an implementation that lets it pass
-example : Holds { identities := [exId ['a'] [[(CN, rootCN)], [(O, org)], [(ST, wa)], [(C, us)]]], chain := exChain, minted := minted, plugin := some { capabilities := [.revocationCheck], identitySuccess := true } } { pass := true } = false := by decide
+example : Holds { identities := [exId ['a'] [[(CN, rootCN)], [(O, org)], [(ST, wa)], [(C, us)]]], chain := exChain, minted := minted, plugin := some { capabilities := [capRevocationCheck], identitySuccess := true } } { pass := true } = false := by decide
 -- a plugin owning the trusted-identity capability decides
-example : run { identities := [exId ['a'] [[(CN, rootCN)], [(O, org)], [(ST, wa)], [(C, us)]]], chain := exChain, minted := minted, plugin := some { capabilities := [.trustedIdentity, .revocationCheck], identitySuccess := true } } = { pass := true } := by decide
-example : Holds { identities := [{ raw := ['*'], rdns := none }], chain := exChain, minted := minted, plugin := some { capabilities := [.trustedIdentity], identitySuccess := false } } { pass := true } = false := by decide
+example : run { identities := [exId ['a'] [[(CN, rootCN)], [(O, org)], [(ST, wa)], [(C, us)]]], chain := exChain, minted := minted, plugin := some { capabilities := [capTrustedIdentity, capRevocationCheck], identitySuccess := true } } = { pass := true } := by decide
+example : Holds { identities := [{ raw := ['*'], rdns := none }], chain := exChain, minted := minted, plugin := some { capabilities := [capTrustedIdentity], identitySuccess := false } } { pass := true } = false := by decide
+
+-- another letter case is another string: with the revocation capability next to it the check stays native ...
+example : run { identities := [exId ['a'] [[(CN, rootCN)], [(O, org)], [(ST, wa)], [(C, us)]]], chain := exChain, minted := minted, plugin := some { capabilities := [capTrustedIdentity.map Char.toLower, capRevocationCheck], identitySuccess := true } } = { pass := false } := by decide
+example : Holds { identities := [exId ['a'] [[(CN, rootCN)], [(O, org)], [(ST, wa)], [(C, us)]]], chain := exChain, minted := minted, plugin := some { capabilities := [capTrustedIdentity.map Char.toLower, capRevocationCheck], identitySuccess := true } } { pass := true } = false := by decide
+-- ... and alone it is no verification capability at all: refused
+example : run { identities := [{ raw := ['*'], rdns := none }], chain := exChain, minted := minted, plugin := some { capabilities := [capTrustedIdentity.map Char.toLower], identitySuccess := true } } = { pass := false } := by decide
 
 end examples
 
